@@ -15,9 +15,16 @@ import (
 // addresses to the decoders does not allocate in the hot loop.
 type dests struct {
 	i       int
+	i8      int8
+	i16     int16
 	i32     int32
 	i64     int64
+	u       uint
+	u8      uint8
+	u16     uint16
+	u32     uint32
 	u64     uint64
+	oct     []byte
 	bigp    *big.Int
 	bigv    big.Int
 	any     interface{}
@@ -33,6 +40,29 @@ type dests struct {
 	rOID    refOIDRes
 	rHdr    refHdr
 	rTime   refTime
+}
+
+// idMasks: XORed into the expected identifier octet they give the 7 other
+// identifier octets with the same tag number (constructed bit, the three other
+// classes, and both). None of them may be accepted by a reader that expects
+// the primitive identifier: re-encoding would not reproduce the consumed bytes.
+var idMasks = []byte{0x20, 0x40, 0x80, 0xc0, 0x60, 0xa0, 0xe0}
+
+var edge6 = []byte{0x00, 0x01, 0x7f, 0x80, 0xfe, 0xff}
+
+func isEdge6(b byte) bool {
+	switch b {
+	case 0x00, 0x01, 0x7f, 0x80, 0xfe, 0xff:
+		return true
+	}
+	return false
+}
+
+// withTrailer returns in followed by one 0xff octet (in's backing array has room).
+func withTrailer(in []byte) []byte {
+	out := in[:len(in)+1]
+	out[len(in)] = 0xff
+	return out
 }
 
 func noWhy() string { return "rejected" }
@@ -92,16 +122,28 @@ const (
 	tBigC
 	tTagC
 	tEnumC
+	tInt8C
+	tInt16C
+	tIntC
+	tUint8C
+	tUint16C
+	tUint32C
+	tUintC
 )
 
+var intTargetNames = []string{
+	"encoding/asn1.Unmarshal(*int)", "encoding/asn1.Unmarshal(*int32)", "encoding/asn1.Unmarshal(*int64)",
+	"encoding/asn1.Unmarshal(**big.Int)", "encoding/asn1.Unmarshal(*interface{})", "encoding/asn1.Unmarshal(*Enumerated)",
+	"cryptobyte.ReadASN1Integer(*int64)", "cryptobyte.ReadASN1Integer(*int32)", "cryptobyte.ReadASN1Integer(*uint64)",
+	"cryptobyte.ReadASN1Integer(*big.Int)", "cryptobyte.ReadASN1Int64WithTag([0])", "cryptobyte.ReadASN1Enum",
+	"cryptobyte.ReadASN1Integer(*int8)", "cryptobyte.ReadASN1Integer(*int16)", "cryptobyte.ReadASN1Integer(*int)",
+	"cryptobyte.ReadASN1Integer(*uint8)", "cryptobyte.ReadASN1Integer(*uint16)", "cryptobyte.ReadASN1Integer(*uint32)",
+	"cryptobyte.ReadASN1Integer(*uint)",
+}
+
 var famInt = &family{
-	name: "INTEGER",
-	targets: []string{
-		"encoding/asn1.Unmarshal(*int)", "encoding/asn1.Unmarshal(*int32)", "encoding/asn1.Unmarshal(*int64)",
-		"encoding/asn1.Unmarshal(**big.Int)", "encoding/asn1.Unmarshal(*interface{})", "encoding/asn1.Unmarshal(*Enumerated)",
-		"cryptobyte.ReadASN1Integer(*int64)", "cryptobyte.ReadASN1Integer(*int32)", "cryptobyte.ReadASN1Integer(*uint64)",
-		"cryptobyte.ReadASN1Integer(*big.Int)", "cryptobyte.ReadASN1Int64WithTag([0])", "cryptobyte.ReadASN1Enum",
-	},
+	name:    "INTEGER",
+	targets: intTargetNames,
 	reasons: intReasons,
 	infos:   []string{"value outside the range of the Go type"},
 	eval:    evalInt,
@@ -114,16 +156,36 @@ func evalInt(w *W, content []byte) {
 	in := w.tlv[:2+n]
 	in[1] = byte(n)
 	copy(in[2:], content)
+	refInteger(content, &w.d.rInt)
+	v := verdict{w.d.rInt.reason, len(in)}
+	w.intTargets(in, v, 0, n)
+	if w.anyAccept && (n != 3 || w.allVariants || isEdge6(content[0]) && isEdge6(content[2])) {
+		w.intVariants(in, v, n)
+	}
+}
+
+// intVariants: the accepted element followed by one more octet (the rest must
+// be exact) and under the 7 other identifier octets (must be rejected).
+func (w *W) intVariants(in []byte, v verdict, n int) {
+	w.intTargets(withTrailer(in), v, 0, n)
+	vv := verdict{intX.wrongID, len(in)}
+	for _, m := range idMasks {
+		w.intTargets(in, vv, m, n)
+	}
+}
+
+// intTargets hands `in` (identifier octet is set here: expected identifier XOR
+// mask) to every INTEGER / ENUMERATED decoder. d.rInt holds the reference value
+// of the contents, n is the number of content octets.
+func (w *W) intTargets(in []byte, v verdict, mask byte, n int) {
 	d := &w.d
 	r := &d.rInt
-	refInteger(content, r)
-	v := verdict{r.reason, len(in)}
-	canon := r.reason == 0
+	canon := v.reason == 0
 	in64 := canon && r.fitsSigned(64)
 	in32 := canon && r.fitsSigned(32)
 	inU64 := canon && r.fitsUint64()
 
-	in[0] = 0x02
+	in[0] = 0x02 ^ mask
 	d.i = 0
 	w.asn1Dec(tIntA, in, v, in64, 0, &d.i, func() (interface{}, bool) { return d.i, r.eqInt64(int64(d.i)) })
 	d.i32 = 0
@@ -132,8 +194,10 @@ func evalInt(w *W, content []byte) {
 	w.asn1Dec(tInt64A, in, v, in64, 0, &d.i64, func() (interface{}, bool) { return d.i64, r.eqInt64(d.i64) })
 	d.bigp = nil
 	w.asn1Dec(tBigA, in, v, canon, 0, &d.bigp, func() (interface{}, bool) { return d.bigp, r.eqBig(d.bigp) })
-	extra := n != 3 // the two targets beyond the design's list skip the 2^24 three-octet contents
-	if extra {
+	// Targets beyond the design's list skip the 2^24 three-octet contents, except
+	// *int16 / *uint16 whose range limits need three content octets.
+	extra := n != 3
+	if extra && mask == 0 { // an interface{} destination is ANY: it states no expected identifier
 		d.any = nil
 		w.asn1Dec(tAnyA, in, v, in64, 0, &d.any, func() (interface{}, bool) {
 			x, ok := d.any.(int64)
@@ -164,14 +228,55 @@ func evalInt(w *W, content []byte) {
 		func(b *cryptobyte.Builder) { b.AddASN1BigInt(&d.bigv) },
 		func() bool { return r.eqBig(&d.bigv) }, func() string { return d.bigv.String() })
 
-	in[0] = byte(ctx0)
+	// The remaining destination kinds of ReadASN1Integer: the reader must accept
+	// exactly the canonical encodings whose value fits the destination type.
+	d.i16 = 0
+	w.cbDec(tInt16C, in, v, canon && r.fitsSigned(16), 0,
+		func(s *cryptobyte.String) bool { return s.ReadASN1Integer(&d.i16) },
+		func(b *cryptobyte.Builder) { b.AddASN1Int64(int64(d.i16)) },
+		func() bool { return r.eqInt64(int64(d.i16)) }, func() string { return fmt.Sprint(d.i16) })
+	d.u16 = 0
+	w.cbDec(tUint16C, in, v, canon && r.fitsUnsigned(16), 0,
+		func(s *cryptobyte.String) bool { return s.ReadASN1Integer(&d.u16) },
+		func(b *cryptobyte.Builder) { b.AddASN1Uint64(uint64(d.u16)) },
+		func() bool { return r.eqUint64(uint64(d.u16)) }, func() string { return fmt.Sprint(d.u16) })
+	if extra {
+		d.i8 = 0
+		w.cbDec(tInt8C, in, v, canon && r.fitsSigned(8), 0,
+			func(s *cryptobyte.String) bool { return s.ReadASN1Integer(&d.i8) },
+			func(b *cryptobyte.Builder) { b.AddASN1Int64(int64(d.i8)) },
+			func() bool { return r.eqInt64(int64(d.i8)) }, func() string { return fmt.Sprint(d.i8) })
+		d.i = 0
+		w.cbDec(tIntC, in, v, in64, 0,
+			func(s *cryptobyte.String) bool { return s.ReadASN1Integer(&d.i) },
+			func(b *cryptobyte.Builder) { b.AddASN1Int64(int64(d.i)) },
+			func() bool { return r.eqInt64(int64(d.i)) }, func() string { return fmt.Sprint(d.i) })
+		d.u8 = 0
+		w.cbDec(tUint8C, in, v, canon && r.fitsUnsigned(8), 0,
+			func(s *cryptobyte.String) bool { return s.ReadASN1Integer(&d.u8) },
+			func(b *cryptobyte.Builder) { b.AddASN1Uint64(uint64(d.u8)) },
+			func() bool { return r.eqUint64(uint64(d.u8)) }, func() string { return fmt.Sprint(d.u8) })
+		d.u32 = 0
+		w.cbDec(tUint32C, in, v, canon && r.fitsUnsigned(32), 0,
+			func(s *cryptobyte.String) bool { return s.ReadASN1Integer(&d.u32) },
+			func(b *cryptobyte.Builder) { b.AddASN1Uint64(uint64(d.u32)) },
+			func() bool { return r.eqUint64(uint64(d.u32)) }, func() string { return fmt.Sprint(d.u32) })
+		d.u = 0
+		w.cbDec(tUintC, in, v, inU64, 0,
+			func(s *cryptobyte.String) bool { return s.ReadASN1Integer(&d.u) },
+			func(b *cryptobyte.Builder) { b.AddASN1Uint64(uint64(d.u)) },
+			func() bool { return r.eqUint64(uint64(d.u)) }, func() string { return fmt.Sprint(d.u) })
+	}
+
+	tag0 := cbasn1.Tag(byte(ctx0) ^ mask)
+	in[0] = byte(tag0)
 	d.i64 = 0
 	w.cbDec(tTagC, in, v, in64, 0,
 		func(s *cryptobyte.String) bool { return s.ReadASN1Int64WithTag(&d.i64, ctx0) },
 		func(b *cryptobyte.Builder) { b.AddASN1Int64WithTag(d.i64, ctx0) },
 		func() bool { return r.eqInt64(d.i64) }, func() string { return fmt.Sprint(d.i64) })
 
-	in[0] = 0x0a
+	in[0] = 0x0a ^ mask
 	d.enum = 0
 	w.asn1Dec(tEnumA, in, v, in32, 0, &d.enum, func() (interface{}, bool) { return d.enum, r.eqInt64(int64(d.enum)) })
 	d.cenum = 0
@@ -222,11 +327,23 @@ var famBool = &family{
 func evalBool(w *W, content []byte) {
 	n := len(content)
 	in := w.tlv[:2+n]
-	in[0], in[1] = 0x01, byte(n)
+	in[1] = byte(n)
 	copy(in[2:], content)
-	d := &w.d
 	reason, want := refBoolean(content)
 	v := verdict{reason, len(in)}
+	w.boolTargets(in, v, 0, want)
+	if w.anyAccept {
+		w.boolTargets(withTrailer(in), v, 0, want)
+		vv := verdict{boolX.wrongID, len(in)}
+		for _, m := range idMasks {
+			w.boolTargets(in, vv, m, want)
+		}
+	}
+}
+
+func (w *W) boolTargets(in []byte, v verdict, mask byte, want bool) {
+	d := &w.d
+	in[0] = 0x01 ^ mask
 	d.b = !want
 	w.asn1Dec(0, in, v, true, 0, &d.b, func() (interface{}, bool) { return d.b, d.b == want })
 	d.b = !want
@@ -243,9 +360,8 @@ var famOID = &family{
 	targets: []string{"encoding/asn1.Unmarshal(*ObjectIdentifier)", "cryptobyte.ReadASN1ObjectIdentifier",
 		"encoding/asn1.Unmarshal(*interface{})"},
 	reasons: oidReasons,
-	infos: []string{"a sub-identifier exceeds MaxInt32 (encoding/asn1 documents 31-bit arcs)",
-		"a sub-identifier of 2^28 or more: cryptobyte's reader bounds the sub-identifier size (4 octets before commit 1c9e29a, MaxInt32 since)"},
-	eval: evalOID,
+	infos:   []string{"a sub-identifier exceeds MaxInt32 (both decoders document 31-bit arcs)"},
+	eval:    evalOID,
 }
 
 func oidEq(got asn1.ObjectIdentifier, r *refOIDRes) bool {
@@ -260,19 +376,61 @@ func oidEq(got asn1.ObjectIdentifier, r *refOIDRes) bool {
 	return true
 }
 
+var oidB8 = []byte{0x00, 0x01, 0x50, 0x7f, 0x80, 0x81, 0xfe, 0xff}
+
+func inOidB8(b byte) bool {
+	switch b {
+	case 0x00, 0x01, 0x50, 0x7f, 0x80, 0x81, 0xfe, 0xff:
+		return true
+	}
+	return false
+}
+
+// oidVariantsOn: which accepted bodies are also run with a trailing octet and
+// under the other identifier octets.
+func (w *W) oidVariantsOn(body []byte) bool {
+	switch n := len(body); {
+	case n <= 2 || n >= 5:
+		return true
+	case n == 3:
+		return w.allVariants || isEdge6(body[2])
+	default:
+		return inOidB8(body[0]) && inOidB8(body[1]) && inOidB8(body[2]) && inOidB8(body[3])
+	}
+}
+
 // evalOID is also the body of the 2^32 loop: it does not allocate itself.
 func evalOID(w *W, body []byte) {
 	n := len(body)
 	in := w.tlv[:2+n]
-	in[0], in[1] = 0x06, byte(n)
+	in[1] = byte(n)
 	copy(in[2:], body)
-	d := &w.d
-	r := &d.rOID
+	r := &w.d.rOID
 	refOID(body, r)
 	v := verdict{r.reason, len(in)}
-	canon := r.reason == 0
+	w.oidTargets(in, v, 0)
+	if w.anyAccept && w.oidVariantsOn(body) {
+		w.oidVariants(in, v)
+	}
+}
+
+func (w *W) oidVariants(in []byte, v verdict) {
+	w.oidTargets(withTrailer(in), v, 0)
+	vv := verdict{oidX.wrongID, len(in)}
+	for _, m := range idMasks {
+		w.oidTargets(in, vv, m)
+	}
+}
+
+// oidTargets: d.rOID holds the reference arcs of the body.
+func (w *W) oidTargets(in []byte, v verdict, mask byte) {
+	d := &w.d
+	r := &d.rOID
+	canon := v.reason == 0
+	// Both decoders document (and implement) sub-identifiers up to MaxInt32.
 	coreA := canon && !r.huge && r.maxSub <= math.MaxInt32
-	coreC := canon && !r.huge && r.maxSub < 1<<28
+	coreC := coreA
+	in[0] = 0x06 ^ mask
 
 	// encoding/asn1
 	w.cur, w.ct = in, 0
@@ -295,7 +453,7 @@ func evalOID(w *W, body []byte) {
 	ok := s.ReadASN1ObjectIdentifier(&d.oid)
 	w.ops++
 	if !ok {
-		w.rejected(1, v, coreC, 1, noWhy)
+		w.rejected(1, v, coreC, 0, noWhy)
 	} else {
 		b := w.builder()
 		b.AddASN1ObjectIdentifier(d.oid)
@@ -304,13 +462,44 @@ func evalOID(w *W, body []byte) {
 		w.accepted(1, v, len(in)-len(*s), re, reErr, oidEq(d.oid, r), func() string { return d.oid.String() })
 	}
 
-	if d.withAny {
+	if d.withAny && mask == 0 { // interface{} is ANY: no expected identifier
 		d.any = nil
 		w.asn1Dec(2, in, v, coreA, 0, &d.any, func() (interface{}, bool) {
 			x, ok := d.any.(asn1.ObjectIdentifier)
 			return d.any, ok && oidEq(x, r)
 		})
 	}
+}
+
+// oid4Shards: bodies of 4 octets with two adjacent octets exhaustive (positions
+// 0-1, 1-2 or 2-3) and the two others over oidB8: 3 x 64 x 65536 bodies. This is
+// the part of "every OID body up to 4 octets" that the quick tier reaches.
+func oid4Shards() []shard {
+	var out []shard
+	for pos := 0; pos < 3; pos++ {
+		var others [2]int
+		k := 0
+		for i := 0; i < 4; i++ {
+			if i != pos && i != pos+1 {
+				others[k] = i
+				k++
+			}
+		}
+		for _, x := range oidB8 {
+			for _, y := range oidB8 {
+				pos, x, y, others := pos, x, y, others
+				out = append(out, func(w *W) {
+					p := w.caseBuf[:4]
+					p[others[0]], p[others[1]] = x, y
+					for e := 0; e < 65536; e++ {
+						p[pos], p[pos+1] = byte(e>>8), byte(e)
+						w.run1(p)
+					}
+				})
+			}
+		}
+	}
+	return out
 }
 
 // oidBoundaryShards: bodies made of an optional leading arc octet 0x2a, one
@@ -396,20 +585,39 @@ func bsEq(bs asn1.BitString, body []byte, bitLen int) bool {
 func evalBit(w *W, body []byte) {
 	n := len(body)
 	in := w.tlv[:2+n]
-	in[0], in[1] = 0x03, byte(n)
+	in[1] = byte(n)
 	copy(in[2:], body)
-	d := &w.d
 	reason, bitLen := refBitString(body)
 	v := verdict{reason, len(in)}
-	canon := reason == 0
+	w.bitTargets(in, body, v, 0, bitLen)
+	if w.anyAccept {
+		w.bitVariants(in, body, v, bitLen)
+	}
+}
+
+func (w *W) bitVariants(in, body []byte, v verdict, bitLen int) {
+	w.bitTargets(withTrailer(in), body, v, 0, bitLen)
+	vv := verdict{bitX.wrongID, len(in)}
+	for _, m := range idMasks {
+		w.bitTargets(in, body, vv, m, bitLen)
+	}
+}
+
+// bitTargets: body = the contents octets inside in, bitLen = reference bit length.
+func (w *W) bitTargets(in, body []byte, v verdict, mask byte, bitLen int) {
+	d := &w.d
+	canon := v.reason == 0
+	in[0] = 0x03 ^ mask
 
 	d.bs = asn1.BitString{}
 	w.asn1Dec(0, in, v, canon, 0, &d.bs, func() (interface{}, bool) { return d.bs, canon && bsEq(d.bs, body, bitLen) })
-	d.any = nil
-	w.asn1Dec(1, in, v, canon, 0, &d.any, func() (interface{}, bool) {
-		x, ok := d.any.(asn1.BitString)
-		return d.any, ok && canon && bsEq(x, body, bitLen)
-	})
+	if mask == 0 { // interface{} is ANY: no expected identifier
+		d.any = nil
+		w.asn1Dec(1, in, v, canon, 0, &d.any, func() (interface{}, bool) {
+			x, ok := d.any.(asn1.BitString)
+			return d.any, ok && canon && bsEq(x, body, bitLen)
+		})
+	}
 
 	// cryptobyte: a BitString value is re-encoded with Builder.MarshalASN1 (the
 	// only Builder method that can express unused bits) and, when it is a whole
@@ -418,20 +626,24 @@ func evalBit(w *W, body []byte) {
 	w.cbDec(2, in, v, canon, 0,
 		func(s *cryptobyte.String) bool { return s.ReadASN1BitString(&d.bs) },
 		func(b *cryptobyte.Builder) { b.MarshalASN1(d.bs) },
-		func() bool { return canon && bsEq(d.bs, body, bitLen) }, func() string { return fmt.Sprintf("%+v", d.bs) })
-	if canon && body[0] == 0 {
+		func() bool { return canon && bsEq(d.bs, body, bitLen) }, func() string { return bsStr(d.bs) })
+	whole := len(body) > 0 && body[0] == 0
+	if whole && (canon || mask != 0) {
 		d.bs = asn1.BitString{}
 		w.cbDec(4, in, v, canon, 0,
 			func(s *cryptobyte.String) bool { return s.ReadASN1BitString(&d.bs) },
 			func(b *cryptobyte.Builder) { b.AddASN1BitString(d.bs.Bytes) },
-			func() bool { return bsEq(d.bs, body, bitLen) }, func() string { return fmt.Sprintf("%+v", d.bs) })
+			func() bool { return bsEq(d.bs, body, bitLen) }, func() string { return bsStr(d.bs) })
 	}
 	var raw []byte
-	whole := canon && body[0] == 0
-	w.cbDec(3, in, v, whole, 0,
+	w.cbDec(3, in, v, canon && whole, 0,
 		func(s *cryptobyte.String) bool { return s.ReadASN1BitStringAsBytes(&raw) },
 		func(b *cryptobyte.Builder) { b.AddASN1BitString(raw) },
-		func() bool { return whole && string(raw) == string(body[1:]) }, func() string { return fmt.Sprintf("%x", raw) })
+		func() bool { return canon && whole && string(raw) == string(body[1:]) }, func() string { return hexClip(raw) })
+}
+
+func bsStr(bs asn1.BitString) string {
+	return fmt.Sprintf("{BitLength:%d Bytes:%s}", bs.BitLength, hexClip(bs.Bytes))
 }
 
 // ================================================== identifier and length
@@ -445,8 +657,11 @@ var famHdr = &family{
 	eval: evalHeader,
 }
 
-// evalHeader: `in` is a header followed by zero contents (possibly truncated or
-// with trailing octets).
+// evalHeader: `in` is a header followed by contents (possibly truncated or with
+// trailing octets). The octet at offset i of the input, where it is not part of
+// the header prefix under test, is fillAt(i): the contents are position
+// dependent, so that a decoder returning a shifted, zeroed or partially copied
+// window fails the re-encoding comparison.
 func evalHeader(w *W, in []byte) {
 	d := &w.d
 	h := &d.rHdr
@@ -581,7 +796,7 @@ func largeContentID(id byte) bool {
 const hdrSmall = 300 // the one-short / one-long variants are generated up to this contents length
 
 // headerCase expands one header prefix into decoder inputs: the prefix
-// completed with zero contents of exactly the declared length and, when the
+// completed with (position-dependent) contents of exactly the declared length and, when the
 // header spans the whole prefix, also one octet short and one octet long. A
 // prefix that is not a complete header is used as is (truncation); a declared
 // length above the limit gets 4 content octets (truncated contents).
@@ -616,7 +831,7 @@ func (w *W) headerCase(p []byte, headersOnly bool) {
 		}
 	}
 	for i := 0; i < k; i++ {
-		buf[i] = 0
+		buf[i] = fillAt(i)
 	}
 }
 
@@ -716,14 +931,27 @@ var famTime = &family{
 func evalTime(w *W, str []byte) {
 	n := len(str)
 	in := w.tlv[:2+n]
-	in[0], in[1] = 0x18, byte(n)
+	in[1] = byte(n)
 	copy(in[2:], str)
-	d := &w.d
-	r := &d.rTime
+	r := &w.d.rTime
 	refGTime(str, r)
 	v := verdict{r.reason, len(in)}
+	w.timeTargets(in, v, 0)
+	if w.anyAccept {
+		w.timeTargets(withTrailer(in), v, 0)
+		vv := verdict{gtX.wrongID, len(in)}
+		for _, m := range idMasks {
+			w.timeTargets(in, vv, m)
+		}
+	}
+}
+
+func (w *W) timeTargets(in []byte, v verdict, mask byte) {
+	d := &w.d
+	r := &d.rTime
+	in[0] = 0x18 ^ mask
 	d.tm = time.Time{}
-	w.cbDec(0, in, v, r.reason == 0, 0,
+	w.cbDec(0, in, v, v.reason == 0, 0,
 		func(s *cryptobyte.String) bool { return s.ReadASN1GeneralizedTime(&d.tm) },
 		func(b *cryptobyte.Builder) { b.AddASN1GeneralizedTime(d.tm) },
 		func() bool {
